@@ -333,6 +333,13 @@ func (db *DB) Merge() error {
 					skipEntry = true
 				}
 
+				// a record of a transaction that never committed (its Commit failed
+				// half way, or the process died) must not be rewritten: the rewrite
+				// gives it a new, committed transaction id
+				if _, ok := db.committedTxIds[entry.Meta.txID]; !ok {
+					skipEntry = true
+				}
+
 				// check if we have a new entry with same key and bucket
 				if r, _ := db.getRecordFromKey(entry.Meta.bucket, entry.Key); r != nil && !skipEntry {
 					if r.H.fileID > int64(pendingMergeFId) {
